@@ -87,6 +87,11 @@ def base_dumps():
     unordered = [B.rec(ts, (i, 2, 3, 4), 9, 0x040c000d) for i, ts in enumerate(stamps)]
     out['v2-unordered'] = v2d([(9, 10, 'procA')], 0, unordered)
 
+    # windows of one thread that overlap without nesting (a fault whose END never arrives starts inside a read), then more records
+    ov = [R('BSC_read', 1, (3, 0x7000, 64, 0), tid=1, ts=80), R('MACH_vmfault', 1, (0x1000, 1, 0, 0), tid=1, ts=81), R('BSC_read', 2, (0, 63, 0, 0), tid=1, ts=82),
+          R('MACH_vm_page_release', 0, tid=1, ts=83), R('BSC_getpid', 1, tid=1, ts=84), R('BSC_getpid', 2, (0, 44, 0, 0), tid=1, ts=85),
+          R('MACH_vm_page_release', 0, tid=1, ts=86), R('BSC_getpid', 1, tid=1, ts=87), R('BSC_getpid', 2, (0, 44, 0, 0), tid=1, ts=88)]
+    out['v2-overlap'] = v2d([(1, 10, 'procA')], 0, ov)
     # three user-stack samples with an image announced between them (callstack consumers)
     def sample(ts, words):
         return [R('PERF_Event', 1, (8, 1, 0, 0), tid=1, ts=ts), R('PERF_STK_UHdr', 0, (1, len(words), 0, 0), tid=1, ts=ts + 1),
@@ -259,6 +264,35 @@ def judge_cli_limit(name, consumer, c):
     return []
 
 
+def judge_cli_cut(name, consumer, cut):
+    """the command-line tool's printing loop on a TRUNCATED dump: whatever reaches standard output before it stops (normally or
+    with an error) is a prefix of what the complete dump prints there."""
+    import contextlib
+    from pykdebugparser.__main__ import print_with_count
+    blob, recs = dumps()[name]
+    fitems, fhow = full(name, consumer)
+    exp_lines = [l for x in fitems for l in str(x).split('\n')]
+    f = PyKdebugParser()
+    reader = CountingReader(blob[:cut])
+    buf = io.StringIO()
+    signal.signal(signal.SIGALRM, _alarm)
+    signal.setitimer(signal.ITIMER_REAL, 20.0)
+    try:
+        with contextlib.redirect_stdout(buf):
+            gen = f.formatted_kevents(reader, tc()) if consumer == 'formatted_kevents' else f.formatted_traces(reader, tc())
+            print_with_count(gen, -1)
+    except (BudgetExceeded, Watchdog):
+        return [('no-termination-on-truncated-dump:command-line', {'cut': cut})]
+    except BaseException:
+        pass
+    finally:
+        signal.setitimer(signal.ITIMER_REAL, 0)
+    got = buf.getvalue().split('\n')[:-1] if buf.getvalue() else []
+    if got != exp_lines[:len(got)]:
+        return [('truncated-output-not-a-prefix:command-line-stdout', {'cut': cut, 'printed': got[-1:], 'n': len(got)})]
+    return []
+
+
 def judge_limit(name, consumer, c):
     blob, recs = dumps()[name]
     fitems, fhow = full(name, consumer)
@@ -280,7 +314,7 @@ class C06(Check):
             'to the offsets - they are already all enumerated - but runs every consumer on every dump) x consumers '
             '{KdBufParser.parse, kevents, traces, formatted_kevents, formatted_traces} through a CountingReader (budget '
             '16*len+4096 read calls, 20 s watchdog); plus every count limit c in 0..N+1 via islice on every complete dump, and every limit -1..N+1 through the command-line tool\'s own print_with_count. '
-            'Oracle: stops before the budget; items reported are a prefix of the complete dump\'s (events only for v3); no '
+            'For the two formatted listings every cut is also run through the printing loop of the command-line tool: its standard output is a prefix of the complete run. Oracle: stops before the budget; items reported are a prefix of the complete dump\'s (events only for v3); no '
             'more events than complete records before the cut; reported items do not change afterwards; islice(c) == '
             'first c of the full listing. Distinct by construction; non-trivial = the cut falls strictly inside a record '
             'or inside the header/sections (not at a record boundary or at len).')
@@ -290,6 +324,8 @@ class C06(Check):
     def consumers(self, name):
         if 'samples' in name:
             return STACK_CONSUMERS + ['traces', 'formatted_traces']
+        if 'overlap' in name:
+            return ['traces', 'formatted_traces']
         if self.tier == 'quick':
             if 'syscalls' in name or 'rename' in name:
                 return CONSUMERS
@@ -315,6 +351,8 @@ class C06(Check):
             boundaries = {s for s, e in recs} | {e for s, e in recs} | {len(blob)}
             for cut in range(lo, hi):
                 bad, n = judge_cut(name, consumer, cut)
+                if consumer in ('formatted_kevents', 'formatted_traces'):
+                    bad = bad + judge_cli_cut(name, consumer, cut)
                 acc.case(nontrivial=cut not in boundaries, transitions=n + 1, outcome=h64((name, consumer, n)))
                 if n:
                     acc.count('cuts_reporting_items')
@@ -339,7 +377,8 @@ class C06(Check):
 
     def replay(self, case):
         if case['kind'] == 'cut':
-            return judge_cut(case['dump'], case['consumer'], case['cut'])[0]
+            return judge_cut(case['dump'], case['consumer'], case['cut'])[0] + \
+                (judge_cli_cut(case['dump'], case['consumer'], case['cut']) if case['consumer'] in ('formatted_kevents', 'formatted_traces') else [])
         if case['kind'] == 'cli-limit':
             return judge_cli_limit(case['dump'], case['consumer'], case['limit'])
         return judge_limit(case['dump'], case['consumer'], case['limit'])
